@@ -69,6 +69,60 @@ def run(ctx):
     passed = all(any(isinstance(c, ast.Call) and prog.resolve_call(f, c) == AUG and c.args and u(c.args[0]) == h.name for c in ast.walk(h)) for h in callers)
     ctx.check(passed, 'C17.exception-only', construct(f), 'the caught exception object itself is handed to the re-raiser', 'the handler no longer passes the caught exception', f.loc(callers[0]), instance='passes-exception')
 
+  # no other handler on the way converts or swallows what a configurable raises: a handler around a call through a *value*
+  # (the wrapped function, a reference's configurable, a hook, the body of a `with` block) hands the caught exception on itself
+  import builtins
+  n_handlers = 0
+  for f in ctx.ix.all_funcs(['config', 'utils']):
+    if not hasattr(f, 'node') or isinstance(f.node, ast.ClassDef):
+      continue
+    locs = f.local_names() | set(f.params)
+    o_ = f.outer
+    while o_ is not None:
+      locs |= o_.local_names() | set(o_.params)
+      o_ = o_.outer
+    imps = f.module.imports
+    for tr in [t for t in walk_local(f.node) if isinstance(t, ast.Try) and t.handlers]:
+      value_calls = []
+      for st in tr.body:
+        for x in ast.walk(st):
+          if isinstance(x, (ast.Yield, ast.YieldFrom)):
+            value_calls.append('the block run at `yield`')
+          if not isinstance(x, ast.Call) or prog.resolve_call(f, x):
+            continue
+          root = x.func
+          while isinstance(root, (ast.Attribute, ast.Subscript, ast.Call)):
+            root = root.value if not isinstance(root, ast.Call) else root.func
+          if not isinstance(root, ast.Name):
+            continue
+          if isinstance(x.func, ast.Name):
+            if root.id in locs and root.id not in imps:
+              value_calls.append(u(x.func))
+          elif root.id in ('self', 'cls') or (root.id in locs and root.id not in imps):
+            # a method of a builtin container / string is not user code
+            if isinstance(x.func, ast.Attribute) and x.func.attr in dir(dict) + dir(list) + dir(str) + dir(set) + dir(tuple) and \
+                not x.func.attr.startswith('_'):
+              continue
+            value_calls.append(u(x.func))
+      if not value_calls:
+        continue
+      for h in tr.handlers:
+        n_handlers += 1
+        nm = h.name
+        rs = [r for r in ast.walk(h) if isinstance(r, ast.Raise)]
+        aug = any(isinstance(c, ast.Call) and prog.resolve_call(f, c) == AUG and c.args and u(c.args[0]) == nm for c in ast.walk(h))
+        same = bool(rs) and all(r.exc is None or (nm and (u(r.exc) == nm or u(r.exc).startswith(nm + '.with_traceback'))) for r in rs)
+        # the handler must end in one of them on every path: its last statement re-raises
+        last = h.body[-1]
+        ends = isinstance(last, ast.Raise) or (isinstance(last, ast.Expr) and isinstance(last.value, ast.Call) and prog.resolve_call(f, last.value) == AUG)
+        ctx.check((aug or same) and ends, 'C17.exception-only', construct(f),
+                  '`except %s` around %s hands the caught exception on itself' % (u(h.type) if h.type else '', value_calls[0]),
+                  '`except %s` around the call through `%s` %s: an exception raised by the configurable (or the reference / hook / block run there) reaches '
+                  'the caller as a different class, or not at all' % (u(h.type) if h.type else '(bare)', value_calls[0],
+                                                                    'raises `%s` instead of the caught exception' % u(rs[-1].exc) if rs and rs[-1].exc is not None else 'does not re-raise'),
+                  f.loc(h), instance='handler:%s:%s' % (f.name, u(h.type) if h.type else 'bare'))
+  ctx.expect_at_least('handlers around calls through values in config.py / utils.py', n_handlers, 2)
+
   # ---- C17.forward-all
   has_gattr = '__getattr__' in proxy.methods
   has_gattribute = '__getattribute__' in proxy.methods
